@@ -128,7 +128,35 @@ fn end_to_end(model: &mut Model, report: &mut Report, code: &str, rules: &[&str]
             _ => true,
         }
     };
-    let check = format!("e2e:{}", rules.iter().find(|r| RULES.contains(r)).unwrap_or(&"pipeline"));
+    // Which rule of the pipeline is the first to change behaviour? Returns (index, inside its hypothesis
+    // on the program it was given). `None`: no single step could be blamed (e.g. text generation).
+    let culprit = |model: &mut Model| -> Option<(usize, bool)> {
+        let mut previous_text = code.to_owned();
+        for i in 1..=rules.len() {
+            match run_pipeline(model, code, &rules[..i], "readable").1 {
+                Pipeline::Ran(o0, o1, output) => {
+                    if o0 != o1 {
+                        let rule = rules[i - 1];
+                        let inside = if RULES.contains(&rule) {
+                            match exec::parse(&previous_text) {
+                                Ok(block) => inside_h(model, rule, &crate::astsexp::block_to_sexp(&block)),
+                                Err(_) => true,
+                            }
+                        } else {
+                            true
+                        };
+                        return Some((i - 1, inside));
+                    }
+                    previous_text = output;
+                }
+                Pipeline::Skip => {}
+                _ => return Some((i - 1, true)),
+            }
+        }
+        None
+    };
+    let mine: Vec<&str> = rules.iter().copied().filter(|r| RULES.contains(r)).collect();
+    let check = if mine.len() == 1 { format!("e2e:{}", mine[0]) } else { "e2e:all-five".to_owned() };
     match outcome {
         Pipeline::Skip => report.count("e2e_process_error_or_original_not_error_free", 1),
         Pipeline::Panic(what) => {
@@ -163,6 +191,21 @@ fn end_to_end(model: &mut Model, report: &mut Report, code: &str, rules: &[&str]
                 if others_alone_bad() {
                     report.count("e2e_other_rules_alone_already_fail", 1);
                     return;
+                }
+                if rules.len() > 1 {
+                    if let Some((i, inside)) = culprit(model) {
+                        if !RULES.contains(&rules[i]) {
+                            // a default rule breaks the (behaviour-preserving) output of the rules before it: C01's business
+                            report.count(&format!("e2e_charged_to_other_rule:{}", rules[i]), 1);
+                            report.sample(json!({"e2e_charged_to_other_rule": rules[i], "config": config_text, "code": code}));
+                            return;
+                        }
+                        if !inside {
+                            report.count(&format!("e2e_intermediate_program_outside_hypothesis:{}", rules[i]), 1);
+                            report.sample(json!({"e2e_intermediate_program_outside_hypothesis": rules[i], "config": config_text, "code": code}));
+                            return;
+                        }
+                    }
                 }
                 report.violation(Violation {
                     kind: "oracle".into(),
@@ -342,7 +385,11 @@ pub fn run(report: &mut Report, replay: Option<&str>) {
         }
     }
 
-    let programs_per_thread: usize = if thorough { 1500 } else { 150 };
+    // development aid (mutation testing): C16_PROGRAMS=<n> overrides the number of programs per thread
+    let programs_per_thread: usize = std::env::var("C16_PROGRAMS")
+        .ok()
+        .and_then(|v| v.parse().ok())
+        .unwrap_or(if thorough { 5000 } else { 450 });
     let threads = 12;
     report.parallel(threads, |tid, r| {
         let mut model = Model::spawn();
@@ -372,6 +419,12 @@ pub fn run(report: &mut Report, replay: Option<&str>) {
             r.hist("program_source", source);
             let mut inside_all = Vec::new();
             for rule in RULES.iter() {
+                // a systematic break: stop shrinking the same failure over and over
+                if r.violations.iter().filter(|v| v.check.starts_with(rule)).count() >= 4 {
+                    r.count("rule_checks_skipped_after_repeated_violations", 1);
+                    inside_all.push(false);
+                    continue;
+                }
                 let (result, inside) = check_rule(&mut model, r, rule, &code);
                 inside_all.push(inside);
                 match &result {
